@@ -533,6 +533,10 @@ func constructorsReplay(args []string) {
 				return
 			}
 
+			// (a list that is refused half-way goes first - the same entries and one that no rule admits: what the refused
+			// call leaves behind must not reach the next one)
+			validateRefusedTwin(g)
+
 			if verr := patchvalidator.Validate(p); verr != nil {
 				col.report(mismatch{Kind: "constructed-patch-invalid", Key: k + ":invalid", Case: cs, Detail: verr.Error(), Actual: p, Replay: rp})
 				return
@@ -580,7 +584,133 @@ func constructorsReplay(args []string) {
 		}
 	})
 
+	// valid inputs at the edges of what validation admits (PatchRules.tla, the valid side): each goes through its
+	// constructor, validates and survives the byte round trip
+	for name, in := range validEdgeInputs(env) {
+		var (
+			p   patch.Patch
+			err error
+		)
+
+		switch in[0] {
+		case "add-public-keys":
+			p, err = patch.NewAddPublicKeysPatch(in[1])
+		case "add-services":
+			p, err = patch.NewAddServiceEndpointsPatch(in[1])
+		case "remove-public-keys":
+			p, err = patch.NewRemovePublicKeysPatch(in[1])
+		case "remove-services":
+			p, err = patch.NewRemoveServiceEndpointsPatch(in[1])
+		case "ietf-json-patch":
+			p, err = patch.NewJSONPatch(in[1])
+		case "replace":
+			p, err = patch.NewReplacePatch(in[1])
+		}
+
+		col.nCases++
+		col.kind("edge:" + name)
+
+		rp := map[string]interface{}{"cmd": append([]string{"constructors-replay"}, args...), "stdin": ""}
+
+		if err != nil {
+			col.report(mismatch{Kind: "constructor-refuses-valid-input", Key: "constructor:edge:" + name, Case: in, Detail: err.Error(), Replay: rp})
+			continue
+		}
+
+		if verr := patchvalidator.Validate(p); verr != nil {
+			col.report(mismatch{Kind: "constructed-patch-invalid", Key: "constructor:edge:" + name + ":invalid", Case: in, Detail: verr.Error(), Actual: p, Replay: rp})
+			continue
+		}
+
+		if msg := checkPatchCodec(p); msg != "" {
+			col.report(mismatch{Kind: "patch-codec", Key: "constructor:edge:" + name + ":codec", Case: in, Detail: msg, Actual: p, Replay: rp})
+		}
+	}
+
 	col.finish()
+}
+
+// validateRefusedTwin validates a copy of the patch whose list got one further entry that no rule admits (the call is
+// refused after the genuine entries were looked at).
+func validateRefusedTwin(g map[string]interface{}) {
+	defer func() { _ = recover() }()
+
+	twin := deepCopyGeneric(generic(g)).(map[string]interface{})
+
+	switch twin["action"] {
+	case "add-services":
+		twin["services"] = append(twin["services"].([]interface{}), map[string]interface{}{"id": "bad id!", "type": "T", "serviceEndpoint": "https://x.example/"})
+	case "add-public-keys":
+		twin["publicKeys"] = append(twin["publicKeys"].([]interface{}), map[string]interface{}{"id": "bad id!"})
+	case "add-also-known-as", "remove-also-known-as":
+		twin["uris"] = append(twin["uris"].([]interface{}), "::not a uri::")
+	case "remove-public-keys", "remove-services":
+		twin["ids"] = append(twin["ids"].([]interface{}), "bad id!")
+	case "replace":
+		d, _ := twin["document"].(map[string]interface{})
+		if l, ok := d["services"].([]interface{}); ok {
+			d["services"] = append(l, map[string]interface{}{"id": "bad id!", "type": "T", "serviceEndpoint": "https://x.example/"})
+		} else if l, ok := d["publicKeys"].([]interface{}); ok {
+			d["publicKeys"] = append(l, map[string]interface{}{"id": "bad id!"})
+		}
+	default:
+		return
+	}
+
+	raw, _ := json.Marshal(twin)
+
+	var p patch.Patch
+	if json.Unmarshal(raw, &p) == nil {
+		_ = patchvalidator.Validate(p)
+	}
+}
+
+// validEdgeInputs: name -> (constructor, input text)
+func validEdgeInputs(env *composerEnv) map[string][2]string {
+	js := func(v interface{}) string {
+		b, _ := json.Marshal(v)
+		return string(b)
+	}
+
+	id50 := strings.Repeat("a", 49) + "Z"
+	p256 := env.pool.Get("p256", "edge").JWK
+	ed := env.pool.Get("ed", "edge").JWK
+	bls := env.pool.Get("bls", "edge").JWK
+	x25519 := map[string]interface{}{"kty": "OKP", "crv": "X25519", "x": ed.X}
+	ecJWK := map[string]interface{}{"kty": p256.Kty, "crv": p256.Crv, "x": p256.X, "y": p256.Y}
+	okpJWK := map[string]interface{}{"kty": ed.Kty, "crv": ed.Crv, "x": ed.X}
+	key := func(id, typ string, jwk interface{}, purposes ...interface{}) map[string]interface{} {
+		m := map[string]interface{}{"id": id, "type": typ, "publicKeyJwk": jwk}
+		if len(purposes) > 0 {
+			m["purposes"] = purposes
+		}
+
+		return m
+	}
+	svc := func(id, typ string, ep interface{}) map[string]interface{} {
+		return map[string]interface{}{"id": id, "type": typ, "serviceEndpoint": ep}
+	}
+
+	return map[string][2]string{
+		"key id of 50 characters":                 {"add-public-keys", js([]interface{}{key(id50, "JsonWebKey2020", ecJWK, "authentication")})},
+		"key id of 1 character":                   {"add-public-keys", js([]interface{}{key("k", "JsonWebKey2020", ecJWK)})},
+		"key ids - and _":                         {"add-public-keys", js([]interface{}{key("-_-", "JsonWebKey2020", ecJWK)})},
+		"all five purposes":                       {"add-public-keys", js([]interface{}{key("k5", "JsonWebKey2020", ecJWK, "authentication", "assertionMethod", "keyAgreement", "capabilityDelegation", "capabilityInvocation")})},
+		"X25519 JWK, key agreement":               {"add-public-keys", js([]interface{}{key("ka", "X25519KeyAgreementKey2019", x25519, "keyAgreement")})},
+		"X25519 JWK as JsonWebKey2020":            {"add-public-keys", js([]interface{}{key("kj", "JsonWebKey2020", x25519, "keyAgreement")})},
+		"Ed25519 JWK 2018":                        {"add-public-keys", js([]interface{}{key("ke", "Ed25519VerificationKey2018", okpJWK, "assertionMethod")})},
+		"Ed25519 JWK 2020":                        {"add-public-keys", js([]interface{}{key("kf", "Ed25519VerificationKey2020", okpJWK, "authentication")})},
+		"BLS12-381 G2 JWK":                        {"add-public-keys", js([]interface{}{key("kb", "Bls12381G2Key2020", map[string]interface{}{"kty": bls.Kty, "crv": bls.Crv, "x": bls.X}, "assertionMethod", "keyAgreement")})},
+		"general-purpose keys":                    {"add-public-keys", js([]interface{}{key("g1", "X25519KeyAgreementKey2019", x25519), key("g2", "Ed25519VerificationKey2018", okpJWK)})},
+		"service id of 50, type of 30 characters": {"add-services", js([]interface{}{svc(id50, strings.Repeat("T", 30), "https://svc.example/")})},
+		"service endpoints of every shape": {"add-services", js([]interface{}{svc("s1", "T", "did:example:123"), svc("s2", "T", []interface{}{"https://a.example/", "urn:uuid:1"}),
+			svc("s3", "T", map[string]interface{}{"uri": "https://a.example/", "accept": []interface{}{"didcomm/v2"}}),
+			svc("s4", "T", []interface{}{map[string]interface{}{"uri": "https://a.example/"}, map[string]interface{}{"uri": "https://b.example/"}})})},
+		"remove key ids of 50 and 1": {"remove-public-keys", js([]interface{}{id50, "k"})},
+		"remove service ids of 50":   {"remove-services", js([]interface{}{id50})},
+		"json patch with test":       {"ietf-json-patch", js([]interface{}{map[string]interface{}{"op": "test", "path": "/note", "value": nil}, map[string]interface{}{"op": "replace", "path": "/note", "value": "x"}})},
+		"replace with both sections": {"replace", js(map[string]interface{}{"publicKeys": []interface{}{key(id50, "JsonWebKey2020", ecJWK, "authentication")}, "services": []interface{}{svc(id50, "T", "https://svc.example/")}})},
+	}
 }
 
 // codecReplay: CASE lines of PatchCodec.tla; which JSON objects FromBytes accepts as a patch.
